@@ -4,6 +4,7 @@ package c02
 
 import (
 	"fmt"
+	"math"
 	"runtime"
 	"sort"
 	"strings"
@@ -65,13 +66,78 @@ type locker interface {
 }
 
 type anyLocker struct {
-	name string
-	l    keylock.Locker
-	ent  func() int
-	str  bool
+	name  string
+	l     keylock.Locker
+	ent   func() int
+	str   bool
+	mixed bool
+}
+
+// mixedKey maps model key k to an interface{} key whose dynamic type depends on k: model keys
+// 0..10 are the number 0 in eleven types, 11..21 the number 1, 22.. the "all ones" pattern
+// (-1 / MaxUint). As interface{} values they are all different keys.
+func mixedKey(k int) interface{} {
+	v := k / 11
+	ones := v >= 2
+	switch k % 11 {
+	case 0:
+		if ones {
+			return int(-1)
+		}
+		return int(v)
+	case 1:
+		if ones {
+			return int64(-1)
+		}
+		return int64(v)
+	case 2:
+		if ones {
+			return uint64(math.MaxUint64)
+		}
+		return uint64(v)
+	case 3:
+		if ones {
+			return int32(-1)
+		}
+		return int32(v)
+	case 4:
+		if ones {
+			return uint32(math.MaxUint32)
+		}
+		return uint32(v)
+	case 5:
+		if ones {
+			return uint(math.MaxUint)
+		}
+		return uint(v)
+	case 6:
+		if ones {
+			return int16(-1)
+		}
+		return int16(v)
+	case 7:
+		if ones {
+			return uint16(math.MaxUint16)
+		}
+		return uint16(v)
+	case 8:
+		if ones {
+			return int8(-1)
+		}
+		return int8(v)
+	case 9:
+		if ones {
+			return byte(255)
+		}
+		return byte(v)
+	}
+	return fmt.Sprint(v)
 }
 
 func (a *anyLocker) key(k int) interface{} {
+	if a.mixed {
+		return mixedKey(k)
+	}
 	if a.str {
 		return fmt.Sprintf("k%d", k)
 	}
@@ -159,9 +225,13 @@ func mkT[T comparable](name string, l keylock.TLocker[T], conv func(int) T) lock
 	return &tLocker[T]{name: name, l: l, conv: conv, ent: l.(entCounter).VerifEntries}
 }
 
-var primes = []uint64{1, 2, 3, 5, 73}
+var primes = []uint64{1, 2, 3, 5, 73, 73, 37, 61, 64, 127, 1009}
 
-func intKey(k int) int                                   { return k }
+func mkMixed(name string, l keylock.Locker) locker {
+	return &anyLocker{name: name, l: l, mixed: true, ent: l.(entCounter).VerifEntries}
+}
+
+func intKey(k int) int                                   { return k * 7919 } // spread over the shards of every group size
 func strKey(k int) string                                { return fmt.Sprintf("key-%d", k) }
 func i64Key(k int) int64                                 { return int64(k) - 2 } // includes negative keys
 func u32Key(k int) uint32                                { return uint32(k) * 1000003 }
@@ -169,7 +239,13 @@ func pick[T any](r interface{ Intn(int) int }, xs []T) T { return xs[r.Intn(len(
 
 func newLocker(r interface{ Intn(int) int }) locker {
 	p := pick(r, primes)
-	switch r.Intn(12) {
+	switch r.Intn(15) {
+	case 12:
+		return mkMixed("KeyLocker[mixed key types]", keylock.NewKeyLocker())
+	case 13:
+		return mkMixed(fmt.Sprintf("KeyLockerGrp/mod%d[mixed key types]", p), keylock.NewKeyLockeGrp(remap.WithPrime(p)))
+	case 14:
+		return mkMixed(fmt.Sprintf("KeyLockerGrp/xxh%d[mixed key types]", p), keylock.NewXHashKeyLockeGrp(remap.WithPrime(p)))
 	case 0:
 		return mkAny("KeyLocker[int]", keylock.NewKeyLocker(), false)
 	case 1:
